@@ -100,6 +100,12 @@ def _follow_to_switch(b, bb, local, maxsteps=4):
         if t["k"] == "switch":
             if op_local(t["d"]) == local:
                 return bb, t
+            # switch on a plain copy made in this block (`_25 = _18; switch(_25)`)
+            dl = op_local(t["d"])
+            for st in b.stmts(bb):
+                if st["k"] == "=" and st["l"]["l"] == dl and not st["l"]["p"] and st["r"]["k"] == "use" \
+                   and op_local(st["r"]["o"]) == local and not op_place(st["r"]["o"])["p"]:
+                    return bb, t
             # `!x` before the switch
             for st in b.stmts(bb):
                 if st["k"] == "=" and st["r"]["k"] == "un" and st["r"]["op"] == "Not" and op_local(st["r"]["o"]) == local:
@@ -392,18 +398,19 @@ def data_mut_sites(b, include_getmut=False):
     return out
 
 
-def direct_mutators(ctx):
+def direct_mutators(ctx, include_purge=False):
     """engine bodies (incl. private helpers) with a DATA-MUT site outside the lazy-purge branch,
-    or an assignment through a reference derived from a stored value"""
+    or an assignment through a reference derived from a stored value. include_purge=True also
+    counts the removal of an expired key (needed where expiry itself is the event: WATCH)."""
     def compute():
         out = {}
         for fn, b in engine_bodies(ctx.prog).items():
-            sites = [(i, k, f) for (i, k, f) in data_mut_sites(b) if not is_purge_block(b, i)]
-            stores = [(i, st) for (i, st) in payload_stores(b) if not is_purge_block(b, i)]
+            sites = [(i, k, f) for (i, k, f) in data_mut_sites(b) if include_purge or not is_purge_block(b, i)]
+            stores = [(i, st) for (i, st) in payload_stores(b) if include_purge or not is_purge_block(b, i)]
             if sites or stores:
                 out[fn] = (sites, stores)
         return out
-    return ctx.memo("direct_mutators", compute)
+    return ctx.memo(("direct_mutators", include_purge), compute)
 
 
 def payload_stores(b):
